@@ -1,6 +1,6 @@
 SPECIFICATION Spec
 CONSTANTS Devs <- AllDevs
-          Worlds <- MCWorlds
+          Worlds <- MCWorlds1
           CfgSet <- MCCfgs
 INVARIANTS TypeOK Canonical Resolvable ShardedIffRule SettingsSurvive CidFunctionOfEntries BasicLimit
 CHECK_DEADLOCK FALSE
